@@ -17,6 +17,16 @@ func VerifAddNonce(c *Client, v string) {
 	c.addNonce(h)
 }
 
+// VerifAddNonceFields feeds a response header with the given Replay-Nonce fields (possibly several,
+// possibly empty strings) to Client.addNonce.
+func VerifAddNonceFields(c *Client, fields []string) {
+	h := http.Header{}
+	for _, v := range fields {
+		h.Add("Replay-Nonce", v)
+	}
+	c.addNonce(h)
+}
+
 // VerifClearNonces calls Client.clearNonces.
 func VerifClearNonces(c *Client) { c.clearNonces() }
 
